@@ -439,6 +439,8 @@ def rule_closed_forms(repo: Repo, rep: Report) -> None:
     outer = [x for x in stmts_of(fi.body) if isinstance(x, ast.For) and unparse(x.target) == "mask"]
     for x in outer:
         s, dd, _ = classify(x.iter, ["range(1 << d)", "range(2 ** d)"], int_context=True)
+        if s != OK:
+            s, dd, _ = classify(Inliner(fi).inline(x.iter), ["range(1 << d)", "range(2 ** d)", "range(1 << len(self.conjugates()))", "range(1 << len(conjugates))"], int_context=True)
         rep.add("CLOSED-FORM", fi, f"candidate enumeration: for mask in {unparse(x.iter)}", s, dd or "all monic polynomials of degree d, ascending", node=x)
 
 
